@@ -107,7 +107,56 @@ def candidates(facts):
 
 # ------------------------------------------------------------------------------------------------ witness synthesis
 
-def arg_for(ty, method):
+def closure_shape(preds):
+    """a closure literal fitting `F: Fn*(A1, .., An)` with `Output == R` as stated in the method's predicates (String keys/values)"""
+    args = out = None
+    for p_ in preds:
+        m = re.search(r"\bF: (?:std::ops::)?Fn(?:Once|Mut)?\((.*)\)\s*$", p_)
+        if m:
+            inner = m.group(1).strip()
+            args = [x.strip() for x in _split_args(inner)] if inner else []
+        m = re.search(r"<F as std::ops::FnOnce<.*>>::Output == (.*)$", p_)
+        if m:
+            out = m.group(1).strip()
+    if args is None:
+        return None
+    names = ["_a%d" % i for i in range(len(args))]
+    last_v = None
+    for nme, a in zip(names, args):
+        if re.search(r"&('\w+ )?V$", a):
+            last_v = nme
+    body = None
+    if out in (None, "()"):
+        body = "()"
+    elif out == "bool":
+        body = "true"
+    elif out == "V":
+        body = "%s.clone()" % last_v if last_v else 'String::from("v")'
+    elif out == "std::option::Option<V>":
+        body = "Some(%s.clone())" % last_v if last_v else "None"
+    if body is None:
+        return None
+    return "|%s| %s" % (", ".join(names), body)
+
+
+def _split_args(s_):
+    out, depth, cur = [], 0, ""
+    for ch in s_:
+        if ch in "(<[":
+            depth += 1
+        elif ch in ")>]":
+            depth -= 1
+        if ch == "," and depth == 0:
+            out.append(cur)
+            cur = ""
+        else:
+            cur += ch
+    if cur.strip():
+        out.append(cur)
+    return out
+
+
+def arg_for(ty, method, preds=None):
     t = ty.strip()
     if re.match(r"^&'?\w*\s*seize::Guard<", t) or "seize::Guard<" in t and t.startswith("&"):
         return "&guard"
@@ -118,6 +167,9 @@ def arg_for(ty, method):
     if t == "V":
         return 'String::from("v")'
     if t == "F":
+        shape = closure_shape(preds or [])
+        if shape is not None:
+            return shape
         if method == "compute_if_present":
             return "|_k, v| Some(v.clone())"
         return "|_k, _v| true"
@@ -147,7 +199,7 @@ def program(fac, b, ins, offending, use_result=True, item=False):
         recv = "pinned"
     args = []
     for t in ins[1:]:
-        a = arg_for(t, b.name)
+        a = arg_for(t, b.name, b.predicates)
         if a is None:
             return None
         args.append(a)
